@@ -40,6 +40,15 @@ pub fn world(ctx: &mut Ctx, generated_key: bool) -> Option<World> {
     Some(World { kpd, rev_h, rev_g, rpd, merchant, customer })
 }
 
+/// SHA3-256 with the independent implementation (rust-crypto)
+pub fn sha3_256(bytes: &[u8]) -> [u8; 32] {
+    let mut h = Sha3::sha3_256();
+    h.input(bytes);
+    let mut d = [0u8; 32];
+    h.result(&mut d);
+    d
+}
+
 pub fn sha3_challenge(bytes: &[u8]) -> Scalar {
     let mut h = Sha3::sha3_256();
     h.input(bytes);
@@ -106,7 +115,7 @@ impl Agreed {
         let pick = |ctx: &mut Ctx| -> u64 {
             match ctx.prng.gen_range(0..6) { 0 => 0, 1 => i64::MAX as u64, 2 => 1, _ => ctx.prng.gen::<u64>() >> ctx.prng.gen_range(1..64) }
         };
-        let n = ctx.prng.gen_range(0..40);
+        let n = match ctx.prng.gen_range(0..5) { 0 => 32, 1 => 64, _ => ctx.prng.gen_range(0..40) };
         let ctx_bytes: Vec<u8> = (0..n).map(|_| ctx.prng.gen()).collect();
         Agreed { cid, cid_s: zkabacus_crypto::verif_hooks::channel_id_to_scalar(cid), cb: pick(ctx), mb: pick(ctx), ctx_bytes }
     }
@@ -209,7 +218,7 @@ pub fn establish_customer(ctx: &mut Ctx, w: &World, hidden: &Agreed) -> Option<E
 /// recorded transcript bytes == encoding of the model's atom list for (agreed values, proof atoms)
 pub fn check_est_transcript(ctx: &mut Ctx, w: &World, a: &Agreed, d: &EstD, recorded: &[u8], who: &str) -> bool {
     let book = ctx.book.clone();
-    let digest = a.context().as_bytes();
+    let digest = sha3_256(&a.ctx_bytes); // Context::new = SHA3-256 of the input, computed independently
     let op = format!("est-transcript {} {} {} {} 0", pk_args(&w.kpd.pk), a.pub_args(), d.args(), hex::encode(digest));
     let toks = ctx.ask(&op);
     ctx.evals += 1;
